@@ -38,6 +38,11 @@ def run(idx: Index, rep: Report, tier: str):
     check_trim_operator(idx, rep)
     check_bitflip_predicate(idx, rep)
     check_truncation(idx, rep)
+    # trim_trivial_circuit finishes with Circuit.trim_qubits, trim_trivial_operator(reindex=True) renumbers the operator in increasing order: both have to agree
+    from .C09 import check_trim_relabelling
+    check_trim_relabelling(idx, rep)
+    from ..rules.closures import check_closure_reuse
+    rep.floor("inner functions examined for one-shot captures", check_closure_reuse(idx, rep, FILES), 1)
     f = idx.function(f"{Z2T}::get_z2_taper_function.do_taper") if idx.has_function(f"{Z2T}::get_z2_taper_function.do_taper") else None
     for fn in idx.module_by_relpath(Z2T).functions.values():
         for n in own_nodes(fn.node):
@@ -436,3 +441,4 @@ def check_truncation(idx: Index, rep: Report):
             rep.decide(ok, rule, f, f.node, text=f"{label}, {nq} qubits: {len(dropped)} of {len(before)} terms discarded",
                        what="the discarded part has Frobenius norm at most epsilon (so no eigenvalue moves by more), every kept term keeps its coefficient",
                        reason=(f"discarded part has Frobenius norm {fnorm:.4g} > epsilon = {eps:g}; " if fnorm > eps * (1 + 1e-9) else "") + (f"terms altered: {altered[:2]}" if altered else ""))
+
